@@ -16,8 +16,21 @@ ASSUMPTIONS = ["reference output = range.fun2par(F(domain.par2fun(p))) computed 
                "reference gradient = central-difference Jacobian of p -> forward(p) (step 1e-6, tolerance 1e-5 relative)"]
 
 
-def user_geometry(n):
+def user_geometry(n, raw=False):
     import cuqi
+    if raw:
+        class UserGeomRaw(cuqi.geometry.Continuous1D):
+            """the same geometry written as plain array expressions (whatever array type comes in goes through the arithmetic)"""
+
+            def par2fun(self, p):
+                return np.exp(0.5 * p)
+
+            def fun2par(self, f):
+                return 2.0 * np.log(f)
+
+            def gradient(self, direction, wrt):
+                return direction * 0.5 * np.exp(0.5 * wrt)
+        return UserGeomRaw(n)
 
     class UserGeom(cuqi.geometry.Continuous1D):
         """a user-defined geometry that supplies the derivative of its own par2fun"""
@@ -104,7 +117,9 @@ def model_cases(draw, tier="quick"):
     return {"kind": kind, "dom": dom, "ran": ran, "B": draw(gen.mat(mf, nf, -1, 1)), "D": draw(gen.mat(mf, nf, -1, 1)),
             "cc": draw(st.sampled_from([0.0, 0.5, 1.0])) if kind in ("jac", "grad", "noderiv") else 0.0,
             "P": draw(gen.mat(N, par_dim(dom), -1, 1)), "d": draw(gen.vec(par_dim(ran), -2, 2)),
-            "argname": draw(st.sampled_from(["x", "u", "theta"]))}
+            "argname": draw(st.sampled_from(["x", "u", "theta"])),
+            # the user's functions written as plain array expressions: geometry-carrying arrays pass through their arithmetic
+            "raw_ops": draw(st.booleans())}
 
 
 def fun_shape(s):
@@ -119,10 +134,10 @@ def par_dim(s):
     return s["fun_dim"] if s["kind"] == "user" else gen.geom_par_dim(s)
 
 
-def make_geom(s):
+def make_geom(s, raw=False):
     if s["kind"] == "usermapped":
         return user_mapped_geometry(s)
-    return user_geometry(s["fun_dim"]) if s["kind"] == "user" else gen.make_geometry(s)
+    return user_geometry(s["fun_dim"], raw) if s["kind"] == "user" else gen.make_geometry(s)
 
 
 def identity_like(s):
@@ -133,7 +148,8 @@ def build(c):
     import cuqi
     B, D, cc = A(c["B"]), A(c["D"]), c["cc"]
     dshape, rshape = fun_shape(c["dom"]), fun_shape(c["ran"])
-    dom, ran = make_geom(c["dom"]), make_geom(c["ran"])
+    raw = bool(c.get("raw_ops")) and len(dshape) == 1 and len(rshape) == 1
+    dom, ran = make_geom(c["dom"], raw), make_geom(c["ran"])
 
     def F(f):
         v = np.asarray(f, dtype=float).reshape(-1)
@@ -142,10 +158,18 @@ def build(c):
     def J(f):
         v = np.asarray(f, dtype=float).reshape(-1)
         return B + cc * (1 - np.tanh(D @ v) ** 2)[:, None] * D
-    fwd = gen.named_callable([c["argname"]], F)
+
+    def F_raw(f):
+        return B @ f + cc * np.tanh(D @ f)
+
+    def grad_raw(direction, wrt):
+        return B.T @ direction + cc * (D.T @ ((1 - np.tanh(D @ wrt) ** 2) * direction))
+    fwd = gen.named_callable([c["argname"]], F_raw if raw else F)
     k = c["kind"]
     if k == "jac":
         model = cuqi.model.Model(fwd, ran, dom, jacobian=gen.named_callable([c["argname"]], J))
+    elif k == "grad" and raw:
+        model = cuqi.model.Model(fwd, ran, dom, gradient=grad_raw)
     elif k == "grad":
         model = cuqi.model.Model(fwd, ran, dom, gradient=lambda direction, wrt: (np.asarray(direction).reshape(-1) @ J(wrt)).reshape(dshape))
     elif k == "noderiv":
@@ -162,7 +186,7 @@ def build(c):
 def tags_of(c):
     dk = c["dom"]["kind"] if c["dom"]["kind"] not in ("mapped", "usermapped") else c["dom"]["kind"] + "_" + c["dom"]["base"]["kind"]
     rk = c["ran"]["kind"] if c["ran"]["kind"] != "mapped" else "mapped_" + c["ran"]["base"]["kind"] + "_" + c["ran"]["map"]
-    return {"model": c["kind"], "dom": dk, "ran": rk}
+    return {"model": c["kind"], "dom": dk, "ran": rk, "raw_ops": bool(c.get("raw_ops"))}
 
 
 def run_forward(c, rec):
@@ -276,7 +300,9 @@ def run_gradient(c, rec):
         rec.count("wrt_roundtrip_inexact")
     wa = cuqi.array.CUQIarray(p.copy(), is_par=True, geometry=dom)
     gw = must(lambda: model.gradient(d.copy(), wa), "gradient(CUQIarray wrt)")
-    require(close(np.asarray(gw, dtype=float), g, 1e-12), "gradient with CUQIarray wrt differs")
+    require(close(np.asarray(gw, dtype=float), g, 1e-12), "gradient with CUQIarray wrt differs", got=np.asarray(gw, dtype=float), want=g)
+    gb = must(lambda: model.gradient(da, wa), "gradient(CUQIarray direction, CUQIarray wrt)")
+    require(close(np.asarray(gb, dtype=float), g, 1e-12), "gradient with CUQIarray direction and CUQIarray wrt differs", got=np.asarray(gb, dtype=float), want=g)
 
 
 def run_rename(c, rec):
